@@ -383,6 +383,68 @@ func main() {
 		ratParam("default_jitter", "0.5", "client.go:DefaultClient.Backoff.Jitter", jit, jit != "")
 	}
 
+	// --- client.go: the thresholds of mergeDefaults and the "no randomization" flag of nextInterval
+	{
+		type cmp struct {
+			op  token.Token
+			val *big.Int
+		}
+		signed := func(e ast.Expr) (*big.Int, bool) {
+			if u, ok := e.(*ast.UnaryExpr); ok && u.Op == token.SUB {
+				if v, ok := evalInt(u.X); ok {
+					return new(big.Int).Neg(v), true
+				}
+				return nil, false
+			}
+			return evalInt(e)
+		}
+		collect := func(fd *ast.FuncDecl, name string) (out []cmp) {
+			if fd == nil {
+				return nil
+			}
+			ast.Inspect(fd, func(x ast.Node) bool {
+				be, ok := x.(*ast.BinaryExpr)
+				if !ok {
+					return true
+				}
+				last := ""
+				switch l := be.X.(type) {
+				case *ast.SelectorExpr:
+					last = l.Sel.Name
+				case *ast.Ident:
+					last = l.Name
+				}
+				if last != name {
+					return true
+				}
+				if v, ok := signed(be.Y); ok {
+					out = append(out, cmp{be.Op, v})
+				}
+				return true
+			})
+			return out
+		}
+		md := funcDecl(p("client.go"), "mergeDefaults")
+		ini, mul, jit := collect(md, "InitialInterval"), collect(md, "Multiplier"), collect(md, "Jitter")
+		okIni := len(ini) == 1 && ini[0].op == token.LEQ
+		okMul := len(mul) == 1 && mul[0].op == token.LSS
+		okJit := len(jit) == 3 && jit[0].op == token.LEQ && jit[1].op == token.NEQ && jit[2].op == token.GEQ
+		pick := func(ok bool, c []cmp, i int) *big.Int {
+			if ok {
+				return c[i].val
+			}
+			return nil
+		}
+		intParam("merge_initial_le", 0, "client.go:mergeDefaults InitialInterval <=", pick(okIni, ini, 0), okIni, "Z")
+		intParam("merge_multiplier_lt", 1, "client.go:mergeDefaults Multiplier <", pick(okMul, mul, 0), okMul, "Z")
+		intParam("merge_jitter_le", 0, "client.go:mergeDefaults Jitter <=", pick(okJit, jit, 0), okJit, "Z")
+		intParam("merge_jitter_flag", -1, "client.go:mergeDefaults Jitter !=", pick(okJit, jit, 1), okJit, "Z")
+		intParam("merge_jitter_ge", 1, "client.go:mergeDefaults Jitter >=", pick(okJit, jit, 2), okJit, "Z")
+		nj := collect(funcDecl(p("client.go"), "nextInterval"), "jitter")
+		okNj := len(nj) == 1 && nj[0].op == token.EQL
+		intParam("next_interval_flag", -1, "client.go:nextInterval jitter ==", pick(okNj, nj, 0), okNj, "Z")
+	}
+
 	// --- session.go / server.go / client_connection.go
 	env2 := map[string]string{}
 	stringEnv(p("session.go"), env2)
